@@ -1,9 +1,9 @@
 (** C09 — lemmas about the model of pkg/obialign's LCS / one-difference kernels.
     Pack.v: packed words; D1.v: D1Or0; Ref.v: reference recursion = LCS; Band.v: the LCS clause; BandM.v: two-row program = banded matrix (layer i); BandE.v: banded matrix = reference within the bound (layers ii-iv); BandS.v: symmetry; BandX.v: swap; EgfRef.v: end-gap-free reference = optimal free-end alignment; BandG.v: layers ii-iv for the end-gap-free mode;
-    RefSym.v: symmetry of the reference. Here: the IUPAC compatibility table. *)
+    RefSym.v: symmetry of the reference; Short.v: D1Or0 against the LCS kernel (the callers' shortcut); Case.v: case folding; Bound.v: the bounds 0, 1 and below -1; Safe.v / D1Safe.v: no slice access out of range (LCS kernel / D1Or0). Here: the IUPAC compatibility table. *)
 From Coq Require Import NArith ZArith List Bool Lia.
 Import ListNotations.
-From OBI.C09 Require Export Model Corr Pack D1 Lev Ref RefSym Band BandX BandM BandE BandS EgfRef BandG.
+From OBI.C09 Require Export Model Corr Pack D1 Lev Ref RefSym Band BandX BandM BandE BandS EgfRef BandG Short Case Bound Safe D1Safe.
 Open Scope N_scope.
 
 (** IUPAC nucleotide codes as sets of bases (NC-IUB 1984), written independently of the table of the code *)
@@ -52,4 +52,54 @@ Proof.
     + exfalso. apply H0. apply d1or0_zero. exact V.
     + exfalso. apply H1. apply d1or0_one_sound. exact V.
     + exact V.
+Qed.
+
+(** _samenuc on EVERY pair of byte values (in fact every pair of numbers), not only on the 32 codes: two letters (either
+    case) match iff their IUPAC sets intersect - a letter that is no nucleotide code has the empty set and matches nothing,
+    not even itself; as soon as one symbol is no letter the two symbols match iff they are equal after folding the ASCII
+    upper case. *)
+Definition is_letter (x : N) : bool := ((65 <=? x) && (x <=? 90)) || ((97 <=? x) && (x <=? 122)).
+
+Lemma is_lc_lower : forall x, is_lc (lower x) = is_letter x.
+Proof.
+  assert (H : forall n : nat, (n < 26)%nat -> is_lc (lower (65 + N.of_nat n)) = is_letter (65 + N.of_nat n)).
+  { intros n Hn. do 26 (destruct n as [| n]; [vm_compute; reflexivity |]). lia. }
+  intro x. destruct (N.leb_spec 65 x) as [A | A]; [destruct (N.leb_spec x 90) as [B | B] |].
+  - specialize (H (N.to_nat (x - 65)) ltac:(lia)). rewrite N2Nat.id in H.
+    replace (65 + (x - 65)) with x in H by lia. exact H.
+  - unfold lower, is_letter, is_lc. destruct (N.leb_spec x 90) as [B' | B']; [lia |].
+    rewrite !andb_false_r. reflexivity.
+  - unfold lower, is_letter, is_lc. destruct (N.leb_spec 65 x) as [A' | A']; [lia |].
+    cbn [andb orb]. reflexivity.
+Qed.
+
+Definition letters52 : list N :=
+  map (fun n => 65 + N.of_nat n) (seq 0 26) ++ map (fun n => 97 + N.of_nat n) (seq 0 26).
+
+Lemma is_letter_in : forall x, is_letter x = true -> In x letters52.
+Proof.
+  intros x H. unfold is_letter in H. apply orb_true_iff in H. unfold letters52. apply in_or_app.
+  destruct H as [H | H]; apply andb_true_iff in H; destruct H as [H1 H2]; apply N.leb_le in H1, H2; [left | right];
+    apply in_map_iff.
+  - exists (N.to_nat (x - 65)). split; [rewrite N2Nat.id; lia | apply in_seq; lia].
+  - exists (N.to_nat (x - 97)). split; [rewrite N2Nat.id; lia | apply in_seq; lia].
+Qed.
+
+Lemma samenuc_all : forall x y,
+  samenuc x y = if is_letter x && is_letter y then compatible x y else (lower x =? lower y).
+Proof.
+  assert (H : forallb (fun x => forallb (fun y => Bool.eqb (samenuc x y) (compatible x y)) letters52) letters52 = true)
+    by (vm_compute; reflexivity).
+  intros x y. destruct (is_letter x) eqn:Lx; [destruct (is_letter y) eqn:Ly |]; cbn [andb].
+  - rewrite forallb_forall in H. specialize (H x (is_letter_in x Lx)).
+    rewrite forallb_forall in H. specialize (H y (is_letter_in y Ly)). apply Bool.eqb_prop in H. exact H.
+  - unfold samenuc. rewrite !is_lc_lower, Lx, Ly. reflexivity.
+  - unfold samenuc. rewrite !is_lc_lower, Lx. reflexivity.
+Qed.
+
+(** sequences of IUPAC codes (either case) are made of self-compatible symbols *)
+Lemma iupac_selfc : forall a, over iupac_codes a -> selfc a.
+Proof.
+  assert (H : forallb (fun x => samenuc x x) iupac_codes = true) by (vm_compute; reflexivity).
+  intros a Ha x Hx. rewrite forallb_forall in H. apply H. apply Ha. exact Hx.
 Qed.
